@@ -55,9 +55,8 @@ type Node struct {
 	Slot    *validator.BlockSlot
 
 	evMu   sync.Mutex
-	events []EventRec
+	taps   map[string]chan interface{}
 	cancel context.CancelFunc
-	tapWG  sync.WaitGroup
 }
 
 func (c *Config) defaults() {
@@ -186,19 +185,14 @@ func (n *Node) open() error {
 
 var tapTopics = []string{consensus.EventBlockNew, consensus.EventBlockDelete, consensus.EventBlockFinalize, consensus.EventValidatorsChange}
 
+// The tap uses buffered channels registered through the VerifOn hook: Publish is synchronous, so when a processing call
+// has returned every event it published sits in a buffer (no goroutine, no race with TakeEvents).
 func (n *Node) startTap() {
+	n.taps = map[string]chan interface{}{}
 	for _, topic := range tapTopics {
-		ch := n.Exec.Subscribe(topic)
-		topic := topic
-		n.tapWG.Add(1)
-		go func() {
-			defer n.tapWG.Done()
-			for m := range ch {
-				n.evMu.Lock()
-				n.events = append(n.events, EventRec{topic, m})
-				n.evMu.Unlock()
-			}
-		}()
+		ch := make(chan interface{}, 1<<14)
+		n.taps[topic] = ch
+		n.Exec.VerifOn(topic, ch)
 	}
 }
 
@@ -207,15 +201,28 @@ func (n *Node) startTap() {
 func (n *Node) TakeEvents() []EventRec {
 	n.evMu.Lock()
 	defer n.evMu.Unlock()
-	e := n.events
-	n.events = nil
-	return e
+	var out []EventRec
+	for _, topic := range tapTopics {
+		ch := n.taps[topic]
+		for more := true; more; {
+			select {
+			case m, ok := <-ch:
+				if !ok {
+					more = false
+				} else {
+					out = append(out, EventRec{topic, m})
+				}
+			default:
+				more = false
+			}
+		}
+	}
+	return out
 }
 
 // Close releases everything except the database when keepDB is set.
 func (n *Node) shutdown() {
 	n.Exec.Stop() // closes event channels
-	n.tapWG.Wait()
 	n.cancel()
 	if n.Cfg.ListenAddr != "" {
 		n.Conn.Stop()
@@ -234,7 +241,6 @@ func (n *Node) Restart() error {
 		n.DB.Close()
 		n.DB = nil
 	}
-	n.events = nil
 	return n.open()
 }
 
